@@ -11,8 +11,6 @@ impl GenerationPass for LivenessPass {
     #[allow(clippy::too_many_lines)]
     fn run(cfg: &mut crate::cfg::Cfg) -> Result<(), Box<CfgError>> {
         let mut changed = true;
-        #[allow(clippy::mutable_key_type)]
-        let mut visited = HashSet::new();
 
         // The exit nodes of all functions. When functions share code, the
         // return that is the exit of one function may have been turned into a
@@ -28,6 +26,72 @@ impl GenerationPass for LivenessPass {
         crate::verif_hooks::begin("liveness");
         #[cfg(rva_verif)]
         crate::verif_hooks::pass_begin("liveness", cfg);
+        while changed {
+            changed = false;
+            #[cfg(rva_verif)]
+            crate::verif_hooks::sweep("liveness");
+            for node in cfg.iter().rev() {
+                // live_out[n] = U live_in[s] for all s in next[n]
+                let live_out = node
+                    .nexts()
+                    .clone()
+                    .into_iter()
+                    .map(|x| x.live_in())
+                    .reduce(|acc, x| acc | x)
+                    .unwrap_or_default();
+                changed |= node.set_live_out(live_out);
+
+                if let Some((func, _)) = node.calls_to_from_cfg(cfg) {
+                    // live_in[F_exit] = live_in[F_exit] U gen[F_exit] U live_out[n]
+                    // We take the union of the existing live_in to match multiple call sites
+                    let func_exit_live_in = (node.live_out()) | func.exit().live_in();
+                    changed |= func.exit().set_live_in(func_exit_live_in);
+
+                    // live_in[n] = (live_in[F_entry] & argument-registers) U (live_out[n] - kill[n])
+                    // kill[n] = caller-saved
+                    let live_in_temp = node.live_out() - node.kill_reg();
+                    let live_in = (func.entry().live_out() & Register::argument_set())
+                        | live_in_temp
+                        | node.gen_reg();
+
+                    changed |= node.set_live_in(live_in);
+                } else if node.is_ecall() {
+                    let (args, _) = node.known_ecall_signature().unwrap_or_default();
+
+                    // live_in[n] = (live_out[n] - caller-saved) U ecall_args U ecall_ins
+                    // ecall_args = X17 (a7) in every case U inputs to the ecall if known by available value analysis, otherwise empty
+                    let live_in = (node.live_out() - Register::caller_saved_set())
+                        | Register::ecall_always_argument_set()
+                        | args;
+                    changed |= node.set_live_in(live_in);
+                } else if node.is_return() || exits.iter().any(|exit| Rc::ptr_eq(exit, &node)) {
+                    // live_in[n] = live_in[n] U gen[n] U (live_out[n] - kill[n])
+                    // The existing live_in is kept because call sites add to
+                    // it; overwriting it here would undo that in every sweep
+                    // and the analysis would never settle.
+                    let live_in =
+                        node.live_in() | node.gen_reg() | (node.live_out() - node.kill_reg());
+                    changed |= node.set_live_in(live_in);
+                } else {
+                    // live_in[n] = gen[n] U (live_out[n] - kill[n])
+                    // (also for a function entry)
+                    let live_in = (node.live_out() - node.kill_reg()) | node.gen_reg();
+
+                    changed |= node.set_live_in(live_in);
+                }
+                #[cfg(rva_verif)]
+                crate::verif_hooks::visit("liveness", &node, false, changed);
+            }
+            #[cfg(rva_verif)]
+            crate::verif_hooks::sweep_end("liveness", None, changed);
+        }
+
+        // u_def: the registers that are assigned on every path to a node. It
+        // runs forwards, so it has a loop of its own, in the order of the
+        // program, once the live sets (which a function entry starts from)
+        // have settled.
+        #[allow(clippy::mutable_key_type)]
+        let mut visited = HashSet::new();
         // u_def[p] AND-ed over the predecessors of a node. Predecessors that
         // have not been visited yet stand for "everything": a node all of
         // whose predecessors are still to come starts from the full set, not
@@ -50,27 +114,11 @@ impl GenerationPass for LivenessPass {
                     .reduce(|acc, x| acc & x)
                     .unwrap_or_else(Register::all)
             };
+        let mut changed = true;
         while changed {
             changed = false;
-            #[cfg(rva_verif)]
-            crate::verif_hooks::sweep("liveness");
-            for node in cfg.iter().rev() {
-                // live_out[n] = U live_in[s] for all s in next[n]
-                let live_out = node
-                    .nexts()
-                    .clone()
-                    .into_iter()
-                    .map(|x| x.live_in())
-                    .reduce(|acc, x| acc | x)
-                    .unwrap_or_default();
-                changed |= node.set_live_out(live_out);
-
-                if let Some((func, _)) = node.calls_to_from_cfg(cfg) {
-                    // live_in[F_exit] = live_in[F_exit] U gen[F_exit] U live_out[n]
-                    // We take the union of the existing live_in to match multiple call sites
-                    let func_exit_live_in = (node.live_out()) | func.exit().live_in();
-                    changed |= func.exit().set_live_in(func_exit_live_in);
-
+            for node in cfg.iter() {
+                let u_def = if let Some((func, _)) = node.calls_to_from_cfg(cfg) {
                     // u_def[n] = (AND u_def[s] for all s in prev[n]) - kill[n] | (u_def[F_exit] AND return-registers)
                     // kill[n] = caller-saved
                     // NOTE: we use the UDEF_f because the udefs are all "candidates"
@@ -80,73 +128,29 @@ impl GenerationPass for LivenessPass {
                     // a garbage value.
                     // TLDR: udef -> return values are a safeguard that the value
                     // has to come from the function.
-                    let u_def = (defined_before(&node, &visited) - Register::caller_saved_set())
+                    (defined_before(&node, &visited) - Register::caller_saved_set())
                         | (if visited.contains(&*func.exit()) {
                             func.exit().u_def()
                         } else {
                             Register::all()
-                        } & Register::return_set());
-
-                    // live_in[n] = (live_in[F_entry] & argument-registers) U (live_out[n] - kill[n])
-                    // kill[n] = caller-saved
-                    let live_in_temp = node.live_out() - node.kill_reg();
-                    let live_in = (func.entry().live_out() & Register::argument_set())
-                        | live_in_temp
-                        | node.gen_reg();
-
-                    changed |= node.set_live_in(live_in);
-                    changed |= node.set_u_def(u_def);
+                        } & Register::return_set())
                 } else if node.is_ecall() {
-                    let (args, rets) = node.known_ecall_signature().unwrap_or_default();
-
                     // u_def[n] = (AND u_def[s] for all s in prev[n]) - caller-saved | ecall_returns
-                    let u_def =
-                        (defined_before(&node, &visited) - Register::caller_saved_set()) | rets;
-
-                    // live_in[n] = (live_out[n] - caller-saved) U ecall_args U ecall_ins
-                    // ecall_args = X17 (a7) in every case U inputs to the ecall if known by available value analysis, otherwise empty
-                    let live_in = (node.live_out() - Register::caller_saved_set())
-                        | Register::ecall_always_argument_set()
-                        | args;
-                    changed |= node.set_live_in(live_in);
-                    changed |= node.set_u_def(u_def);
+                    let (_, rets) = node.known_ecall_signature().unwrap_or_default();
+                    (defined_before(&node, &visited) - Register::caller_saved_set()) | rets
                 } else if node.is_return() || exits.iter().any(|exit| Rc::ptr_eq(exit, &node)) {
-                    // live_in[n] = live_in[n] U gen[n] U (live_out[n] - kill[n])
-                    // The existing live_in is kept because call sites add to
-                    // it; overwriting it here would undo that in every sweep
-                    // and the analysis would never settle.
-                    let live_in =
-                        node.live_in() | node.gen_reg() | (node.live_out() - node.kill_reg());
-                    changed |= node.set_live_in(live_in);
-
                     // u_def[n] = AND u_def[s] for all s in prev[n]
-                    let u_def = defined_before(&node, &visited);
-                    changed |= node.set_u_def(u_def);
+                    defined_before(&node, &visited)
                 } else if node.is_function_entry() {
-                    // live_in[n] = gen[n] U (live_out[n] - kill[n])
-                    let live_in = (node.live_out() - node.kill_reg()) | node.gen_reg();
-
                     // u_def[n] = live_in[n] AND argument-registers
-                    let u_def = live_in & Register::argument_set();
-
-                    changed |= node.set_live_in(live_in);
-                    changed |= node.set_u_def(u_def);
+                    node.live_in() & Register::argument_set()
                 } else {
                     // u_def[n] = AND u_def[s] for all s in prev[n] | kill[n]
-                    let u_def = (defined_before(&node, &visited)) | node.kill_reg();
-
-                    // live_in[n] = gen[n] U (live_out[n] - kill[n])
-                    let live_in = (node.live_out() - node.kill_reg()) | node.gen_reg();
-
-                    changed |= node.set_live_in(live_in);
-                    changed |= node.set_u_def(u_def);
-                }
-                #[cfg(rva_verif)]
-                crate::verif_hooks::visit("liveness", &node, false, changed);
+                    defined_before(&node, &visited) | node.kill_reg()
+                };
+                changed |= node.set_u_def(u_def);
                 visited.insert(node);
             }
-            #[cfg(rva_verif)]
-            crate::verif_hooks::sweep_end("liveness", None, changed);
         }
         Ok(())
     }
